@@ -320,8 +320,13 @@ def run_section(rep, name, cases, line_fn, impl_fn, oracle_fn=None, nontrivial_f
         except Exception as e:  # the harness itself must not die on an implementation exception
             got = 'err ' + err_name(e)
         sec['cases'] += 1
-        if skip_fn and skip_fn(m):          # the model declares the input outside its domain: counted, not compared
+        skipped = bool(skip_fn and skip_fn(m))
+        if skipped:                         # the model declares the input outside its domain: counted, not compared
             sec['dist']['skipped-unmodelled'] = sec['dist'].get('skipped-unmodelled', 0) + 1
+            if oracle_fn:                   # … but the property is still checked on the implementation's answer
+                r = oracle_fn(c, got)
+                if r:
+                    rep.add_failure(r[0], r[1], {'section': name, 'case': c, 'line': line[:4000], 'impl': got[:2000]})
             continue
         if kind_fn:
             k = kind_fn(c, got)
